@@ -10,6 +10,12 @@ Definition case := LC.case.
 (* what `layercake add` itself creates for a layer (doc/layercake_directories.adoc): the layer
    directory, its layerconfig, the build directory and, for a base layer, root/.bashrc in it,
    for a derived layer the two overlayfs directories *)
+(* The names "layerconfig" (doc/layercake_directories.adoc, manual page LAYER DIRECTORY) and
+   "~removed" (property text; manual page, remove) are written out here, NOT taken from the
+   regenerated Gen/Consts.v: a change of defaults.LayerconfigFile / defaults.RemovedLayerSuffix
+   then makes this predicate disagree with what the code does (a concrete failing input)
+   instead of moving with it.  The .bashrc text is not documented: D_BaseLayerRootBashrc is
+   compared with the reviewed text in Properties/C09.v (C09_constants_pinned). *)
 Definition created_by_add (c : cfgT) (x : layer) (p : bytes) (n : node) : bool :=
   let d := l_path x in
   match n with
@@ -20,7 +26,7 @@ Definition created_by_add (c : cfgT) (x : layer) (p : bytes) (n : node) : bool :
                     | _ => prefixes (work_path c x) ++ prefixes (upper_path c x)
                     end))
   | File content =>
-    beq p (pathjoin [d; D_LayerconfigFile])
+    beq p (pathjoin [d; bs "layerconfig"])
     || (match l_base x with
         | [] => beq p (pathjoin [build_path c x; bs "root"; bs ".bashrc"]) && beq content D_BaseLayerRootBashrc
         | _ => false end)
@@ -36,7 +42,7 @@ Definition step_spec (c : cfgT) (w : wobs) (v : sview) : bool :=
     | None => true
     | Some x =>
       let d := l_path x in
-      let removed := d ++ D_RemovedLayerSuffix in
+      let removed := d ++ bs "~removed" in
       let user_data := filter (fun e => at_or_under d (fst e) && negb (created_by_add c x (fst e) (snd e))) f in
       (* every user file survives with its content, in place or under <name>~removed *)
       forallb (fun e =>
